@@ -49,6 +49,8 @@ def make_registry():
         """argument i of the k-th boundary call named name"""
         name, k, i = it.concrete(name), it.concrete(k), it.concrete(i)
         evs = [e for e in it.ctx.trace if e[0] == "bcall" and e[1][1] == name]
+        if k >= len(evs):
+            return NONE           # the clause also counts the calls, so it is false on this path
         return evs[k][1][2][i]
 
     sf["bcall_arg"] = bcall_arg
@@ -98,3 +100,18 @@ def install_trace_funcs(reg):
         return VSeq(z3.Empty(z3.SeqSort(sort_of(t))), t)
 
     sf["empty_seq"] = empty_seq
+
+    def input_calls(it, name):
+        name = it.concrete(name)
+        return VInt(sum(1 for e in it.ctx.trace if e[0] == "input" and e[1][0] == name))
+
+    sf["input_calls"] = input_calls
+
+    def input_arg(it, name, k, i):
+        name, k, i = it.concrete(name), it.concrete(k), it.concrete(i)
+        evs = [e for e in it.ctx.trace if e[0] == "input" and e[1][0] == name]
+        if k >= len(evs):
+            return VList([])      # the clause also counts the calls, so it is false on this path
+        return evs[k][1][1][i]
+
+    sf["input_arg"] = input_arg
